@@ -12,6 +12,7 @@ mod net;
 mod reader;
 mod settings;
 mod valve;
+mod views;
 
 use std::io::{BufRead, Write};
 use std::panic::{catch_unwind, AssertUnwindSafe};
